@@ -141,6 +141,11 @@ func (b *mkBuilder) ogMetas() []string {
 			mkOgMeta("article:section", b.tk("og", "section")))
 	}
 	b.shuffle(dep)
+	// one type-dependent property before og:type: the parser cannot know yet that it belongs to an article and
+	// drops it (the statement is silent about that one) - the properties AFTER og:type must still all be read
+	if typ == "article" && s.F["type"] == "present" && s.A["expirationTime"] == "absent" && b.g.rng.Intn(3) == 0 {
+		core = append([]string{mkOgMeta("article:expiration_time", b.tk("og", "expirationTime"))}, core...)
+	}
 	return append(core, dep...)
 }
 
@@ -402,7 +407,13 @@ func (b *mkBuilder) page() string {
 		at = len(body)
 	}
 	body = append(body[:at], append([]string{para}, body[at:]...)...)
-	return "<!DOCTYPE html><html" + htmlAttrs + "><head" + headAttrs + "><title>" + b.g.words(4) + "</title>" +
+	// a stray element in the head (a tracking pixel, a div) ends the head for the parser: everything after it,
+	// the metas included, becomes part of the body - metadata is still metadata there
+	stray := ""
+	if b.g.rng.Intn(6) == 0 {
+		stray = b.pick(`<img src="/pix.gif" width="1" height="1" alt="">`, `<div></div>`, `<noscript><img src="/pix.gif"></noscript>`)
+	}
+	return "<!DOCTYPE html><html" + htmlAttrs + "><head" + headAttrs + "><title>" + b.g.words(4) + "</title>" + stray +
 		strings.Join(head, "") + "</head><body>" + strings.Join(body, "\n") + "</body></html>"
 }
 
@@ -559,6 +570,7 @@ func mkMeasure(doc *html.Node) (map[string]interface{}, map[string]int) {
 				}
 				if (strings.HasPrefix(pr, "article:") || strings.HasPrefix(pr, "profile:")) && !typeSeen {
 					info["earlydep"]++
+					return // not counted as provided: see ogMetas
 				}
 				if pr == "og:image" {
 					if content != "" {
